@@ -203,6 +203,11 @@ orc_x86_save_accumulators (OrcX86Target *t, OrcCompiler *c)
 {
   int i;
 
+  /* The scratch registers of the reductions follow those of the last
+   * instruction.  A program without instructions has not set a start yet. */
+  if (c->min_temp_reg < ORC_VEC_REG_BASE)
+    c->min_temp_reg = ORC_VEC_REG_BASE;
+
   for (i = 0; i < ORC_N_COMPILER_VARIABLES; i++) {
     OrcVariable *var = c->vars + i;
 
